@@ -58,6 +58,14 @@ CHECKS = {
          "Exploration: every base (17 ways a value reaches a template) and every single wrap x 20 emission sinks x 4 type tags x 20 payloads, 7 whole-collection sinks, and ~100k random compositions of up to 4 wraps with random payloads over the full byte alphabet; plain payloads must appear only entity-encoded and decode back exactly once, trusted payloads byte-identical exactly once.",
          "The matcher accepts any correct entity spelling; helpers written for the test return template.HTML of their block.",
          "DESIGN.md §4 C01"),
+ "C15": ("exhaustive failure-kind x nesting-context x prefix x gap x suffix x layout tables + rapid random prefixes; line-of-failing-tag oracle and metamorphic shift-by-k relation",
+         "Exploration: 74 failure kinds (runtime and every syntax-error family) x 8 nesting contexts x 27 prefixes (text, tags, multi-line strings and comments, CRLF) x gaps x suffixes x tag layouts; every error must start with 'line N:' (each message line of a parse error), N must be the failing tag's line (within its span when it is multi-line) and prepending k newlines must turn every N into N+k and change nothing else; both Parse and Render.",
+         "Exact N only for single-line failing tags; continuation tags (else-if) accept the span from the opening tag; templates that return no error are counted as excluded.",
+         "DESIGN.md §4 C15"),
+ "C17": ("exhaustive configuration matrix and contentFor/contentOf operation sequences + rapid random composition trees; metamorphic inline-equivalence oracle (splice of independently rendered parts, textual inlining for data-free cases), recording block helper",
+         "Exploration: 4 content types x 4 extensions x 9 layout modes x 9 bodies x 4 data maps, every sequence of <=3 (thorough 4) contentFor/contentOf operations x 3 placements, and thousands of random trees of partials (depth 3), layouts, stored blocks and block helpers: the composed render must equal, byte for byte, the render in which every composition is replaced by an independently rendered, unescaped, exactly-once splice (JS-escaped once where the content type demands), and errors must agree.",
+         "What a layout sees of the partial's data and the definition-vs-use scope of stored blocks are not fixed by the statement and are not generated.",
+         "DESIGN.md §4 C17"),
 }
 
 NOT_BUILT = "check not built yet in this session (see DESIGN.md §4 for its plan); will be claimed once its check is committed"
